@@ -15,7 +15,7 @@ from . import c06, c08
 
 GEN_WRITERS = {'writer::check_write_file': ('check_write_file', 'cli/src/writer.rs'), 'language::swift::Swift::write_codable_file': ('Swift::write_codable_file', 'language/swift.rs')}
 WHOLE_READ = ('std::fs::read', 'std::fs::read_to_string', 'std::io::Read::read_to_end', 'std::io::Read::read_to_string')
-PARTIAL_READ = ('read_exact', 'Read::read', 'read_at', 'read_buf', 'take', 'BufRead')
+PARTIAL_READ = ('read_exact', 'Read::read', 'read_at', 'read_buf', 'io::Read::take', 'BufRead')    # `take` = io::Read::take (not mem::take / Option::take)
 
 
 def gen_writers(ctx, prog):
@@ -25,6 +25,14 @@ def gen_writers(ctx, prog):
     for k_ in [k_ for k_ in GEN_WRITERS if GEN_WRITERS[k_][1] == 'cli/src/writer.rs']:
         del GEN_WRITERS[k_]
     GEN_WRITERS[ow['mir']] = (ow['name'], 'cli/src/writer.rs')
+    # the Swift back end's own file writer (Codable.swift), also by role: the one function of swift.rs that writes a file
+    import re as _re
+    wr = _re.compile(r'std::fs::write$|std::fs::File::create(_new)?$|OpenOptions::open$')
+    sw = [b for b in prog.bodies.values() if b['kind'] in ('fn', 'assoc_fn') and str(b.get('file', '')).endswith('language/swift.rs') and not b.get('derived') and any(wr.search(c['callee']) for c in b['calls'])]
+    if len(sw) == 1:
+        for k_ in [k_ for k_ in GEN_WRITERS if GEN_WRITERS[k_][1] == 'language/swift.rs']:
+            del GEN_WRITERS[k_]
+        GEN_WRITERS[sw[0]['id']] = ('Swift::' + sw[0]['id'].split('::')[-1], 'language/swift.rs')
     return GEN_WRITERS
 
 
